@@ -1721,16 +1721,28 @@ class Executor(object):
         """`for x in range([start,] n)` with a symbolic bound, cut by an invariant.  Ghost `iter_index` = index the next iteration would
         use (start <= iter_index <= max(start, n)); the loop variable keeps its last value after the loop (python semantics)."""
         it = node.iter
-        if not (isinstance(it, ast.Call) and isinstance(it.func, ast.Name) and it.func.id == "range" and 1 <= len(it.args) <= 2 and not it.keywords):
-            raise Unsupported("symbolic for-loop over something other than range(n) at line %d" % node.lineno)
+        is_range = isinstance(it, ast.Call) and isinstance(it.func, ast.Name) and it.func.id == "range" and 1 <= len(it.args) <= 2 and not it.keywords
         if not isinstance(node.target, ast.Name):
             raise Unsupported("symbolic for-loop with a structured target at line %d" % node.lineno)
         lineno = node.lineno
         out = []
-        for s0, bounds in self.eval_list(list(it.args), st, ctx):
+        # `for x in seq` over a 1-D array of symbolic length is the index loop `for i in range(len(seq)): x = seq[i]`
+        heads = self.eval_list(list(it.args), st, ctx) if is_range else [(s_, [v_] if not isinstance(v_, Raised) else v_) for s_, v_ in self.eval(it, st, ctx)]
+        for s0, bounds in heads:
             if isinstance(bounds, Raised):
                 out.append((s0, ("raise", bounds.exc)))
                 continue
+            seq_ = None
+            if not is_range:
+                seq_ = bounds[0]
+                if not isinstance(seq_, SeqVal):
+                    raise Unsupported("symbolic for-loop over %r (neither range(n) nor a 1-D array) at line %d" % (_short(seq_), node.lineno))
+                bounds = [seq_.length]
+            # local python lists the body appends to are given a symbolic-length representation (spec: {"symlists": {name: element kind}})
+            for n_, kind_ in (spec.get("symlists") or {}).items():
+                cur_ = s0.env.get(n_)
+                if isinstance(cur_, Ref) and s0.obj(cur_).kind == "list":
+                    s0.env[n_] = B.symlist_from_items(s0, s0.obj(cur_).items, kind_, n_)
             start = to_z3(bounds[0]) if len(bounds) == 2 else z3.IntVal(0)
             stop = to_z3(bounds[-1])
             invs = spec.get("invariant", [])
@@ -1756,7 +1768,7 @@ class Executor(object):
             s0.assume(z3.And(idx >= start, z3.Or(idx <= stop, idx == start)))
             # the loop variable holds the index of the last iteration that ran (or whatever it held before, if none did)
             if node.target.id in s0.env and is_z3(s0.env[node.target.id]):
-                s0.assume(z3.Implies(idx > start, s0.env[node.target.id] == idx - 1))
+                s0.assume(z3.Implies(idx > start, s0.env[node.target.id] == (idx - 1 if seq_ is None else z3.Select(seq_.arr, idx - 1))))
             for inv in invs:
                 s0.assume(to_bool(self.eval_spec(inv, s0, ctx)))
             # identity invariants over unmodelled values, "val_var is fname(arg_var)": proved on entry, assumed at the head (ghost call log),
@@ -1780,7 +1792,7 @@ class Executor(object):
                     chk.add(a_)
                 self._for_covers[ckey] = (chk.check() == z3.sat)
             if self.feasible(sb):
-                sb.env[node.target.id] = idx
+                sb.env[node.target.id] = idx if seq_ is None else z3.Select(seq_.arr, idx)
                 # ghost names for values at the head of *this* iteration (after the invariant has been assumed)
                 for n_, e_ in (spec.get("let_body") or {}).items():
                     sb.env[n_] = self.eval_spec(e_, sb, ctx)
